@@ -1,15 +1,35 @@
 """C12 configuration for /verif/check."""
 PROP = dict(
         module='kernel', pkg='device/acpi/aml', pkgname='aml', harness=['aml/c12_test.go', 'aml/amlcommon_test.go'],
-        n=dict(quick=3000, thorough=60000),
+        n=dict(quick=8000, thorough=150000),
         timeout=dict(quick=900, thorough=5400),
         nontrivial=r'^P .*\| (ok|err) ',
         rule='one evaluation = one ParseAML call of the real parser on one byte string (in a child process, under recover, '
-             '64 MiB stack cap, 20 s watchdog), replayed through the Lean parser model; distinct = by hash of (input, observation); '
-             'non-trivial = the parser returned (ok or its parse error) and the tree was dumped',
-        trusted=['child-process runner classifies process death (stack overflow / timeout / fatal) from exit status and stderr',
-                 'error-message formatting (kfmt.Fprintf to the error writer) is not modelled'],
+             '64 MiB stack cap, 20 s watchdog; a child that dies is re-run alone to confirm), replayed through the Lean parser '
+             'model (a statement-by-statement port of parser.go + obj_tree.go); distinct = by hash of (input, observation); '
+             'non-trivial = the parser returned (ok or its parse error) and the whole object pool was dumped and compared',
+        trusted=['child-process runner classifies process death (stack overflow / timeout / fatal / memory) from stderr and the watchdog',
+                 'error-message formatting (kfmt.Fprintf to the error writer) is not modelled (C15 covers kfmt)',
+                 'trees larger than VERIF_AML_ROWS objects are compared by a 64-bit FNV hash of the canonical dump, and their '
+                 'well-formedness / slice bounds are checked by the Go twin of the Lean oracle (the twins are cross-checked on every dumped tree)'],
         assumptions=['header.Length equals the length of the byte string presented (C14 validates tables before they reach the parser)',
-                     'table length < 2^32'],
-        level_text='partial (work in progress)', level_note='work in progress',
+                     'table length < 2^32 - 1024 (SizeOk; uint32 offset arithmetic of the name decoder cannot wrap)'],
+        level_text='proof (partial). Proved in Lean for ALL tables and ALL reader states inside the table: the lexical layer - '
+                   'reader_inv (offset<=len and pkgEnd<=len preserved by every reader op and every decoder, none can panic or run out of '
+                   'fuel), reads_below_pkgEnd, slices_in_table_partial (slices built by parseString / parseNameString / parseByteList lie '
+                   'inside the table), stored_values_partial, total_partial (decoders total on fuel len+1), init_inv, and '
+                   'opcode_table_sane (kernel-evaluated over the opcode tables regenerated from the compiled Go code on every run). '
+                   'The statements about the whole multi-pass parser - C12.total (never panic / stack overflow / hang, fuel linear in '
+                   'the input), slices_in_table for every value stored in the tree, tree_WF after success and after failure, print_total - '
+                   'are NOT proved; they are decided per input by the oracle on the real parser and by model-vs-implementation '
+                   'correspondence over the deterministic boundary list + the mutational stream.',
+        level_note='Partial: only the lexical layer and the table facts are theorems; the parser passes (parseObjectList, parseArg, '
+                   'parseFieldElements, connectNamedObjArgs, mergeScopeDirectives, relocateNamedObjects, parseDeferredBlocks, '
+                   'resolveMethodCalls, connectNonNamedObjArgs, attachSiblingsAsArgs) are covered by differential testing of a faithful '
+                   'executable Lean port (0 mismatches incl. the 3577-object DSDT tree) and by the property oracle on the real code '
+                   '(outcome in {ok, parse error}; every stored []byte inside its table; pool links form a well-formed forest with an exact '
+                   'free list; PrettyPrint does not panic). Trusted: Lean kernel (+ propext, Classical.choice, Quot.sound), the theorem '
+                   'statements, the harness and child-process runner, Go toolchain. Five genuine defects found by this check were repaired '
+                   'in /repo (relocation cycle/stack overflow, Connection buffer past the table, attachSiblingsAsArgs corrupting the '
+                   'grandparent list on a successful parse, PrettyPrint nil dereference after a failed parse, 8-bit MultiNamePath length).',
 )
